@@ -184,15 +184,28 @@ def oracle_bounded_instance():
                 field[k, f] = int(B.env[key]) if key in B.env else col[k]
                 B.used_env[key] = int(field[k, f])
         mask = ref[field, np.arange(F)]
+        history = B.choose('history', [0, 0, 11, 12, 13])
         if flat:
-            return {'ref': ref[:, 0, :], 'mask': mask[:, 0, :], 'metric': metric, 'alg': alg, 'flat': True, 'soft': True}
-        return {'ref': ref, 'mask': mask, 'metric': metric, 'alg': alg, 'flat': False, 'soft': True}
+            return {'ref': ref[:, 0, :], 'mask': mask[:, 0, :], 'metric': metric, 'alg': alg, 'flat': True, 'soft': True, 'history': history}
+        return {'ref': ref, 'mask': mask, 'metric': metric, 'alg': alg, 'flat': False, 'soft': True, 'history': history}
 
     def call(inp):
         al = pa.OraclePermutationAlignment(inp['metric'], inp['alg'])
         mask, ref = np.array(inp['mask'], copy=True), np.array(inp['ref'], copy=True)      # the library gets its own copies
         if inp['soft']:
             mask, ref = mask.astype(np.float64), ref.astype(np.float64)
+        if inp.get('history'):
+            # the same aligner object and the same buffers served an unrelated scene before; the buffers are refilled in place
+            rng = np.random.RandomState(int(inp['history']))
+            real_mask, real_ref = mask, ref
+            ref = rng.uniform(0.05, 1.0, size=real_ref.shape)
+            mask = np.ascontiguousarray(ref[::-1])
+            if inp['flat']:
+                mask[al.calculate_mapping(mask, ref)]
+            else:
+                al(mask, ref)
+            np.copyto(ref, real_ref)
+            np.copyto(mask, real_mask)
         m0, r0 = mask.copy(), ref.copy()
         if inp['flat']:
             res = mask[al.calculate_mapping(mask, ref)]
